@@ -821,7 +821,9 @@ func (k *Kernel) addPrevote(ctx context.Context, s *kState, req AddPrevoteReques
 
 	// And if this was an accepted prevote for NextRound,
 	// we might need to shift the view.
-	if res == AddVoteAccepted && vID == ViewIDNextRound {
+	// (Whenever any prevote was added, even if the request as a whole was a conflict;
+	// see the matching comment in addPrecommit.)
+	if anyAdded && vID == ViewIDNextRound {
 		// TODO: this needs to also check NextHeight.
 		if err := k.checkPrevoteViewShift(ctx, s, vID); err != nil {
 			k.log.Warn("Error while checking view shift for prevotes into next round; kernel may be in bad state", "err", err)
@@ -920,7 +922,11 @@ func (k *Kernel) addPrecommit(ctx context.Context, s *kState, req AddPrecommitRe
 
 	// END OF addPrevote SYNCHRONIZATION.
 
-	if res != AddVoteAccepted {
+	// The view may need to shift whenever any precommit was added,
+	// not only when the whole request was applied:
+	// a request that was applied in part is answered with a conflict,
+	// and the retry may find nothing left to add and never come back here.
+	if !anyAdded {
 		return
 	}
 
